@@ -422,13 +422,25 @@ where
             } else if Ch::EXISTS {
                 // children
                 *position = Position::FirstChild;
-                self.children.to_html_with_buf(
-                    buf,
-                    position,
-                    E::ESCAPE_CHILDREN,
-                    mark_branches,
-                    vec![],
-                );
+                if escapes_content_as_text::<E>() {
+                    let mut content = String::new();
+                    self.children.to_html_with_buf(
+                        &mut content,
+                        position,
+                        false,
+                        mark_branches,
+                        vec![],
+                    );
+                    buf.push_str(&html_escape::encode_text(&content));
+                } else {
+                    self.children.to_html_with_buf(
+                        buf,
+                        position,
+                        E::ESCAPE_CHILDREN,
+                        mark_branches,
+                        vec![],
+                    );
+                }
             }
 
             // closing tag
@@ -466,13 +478,25 @@ where
             if !inner_html.is_empty() {
                 buffer.push_sync(&inner_html);
             } else if Ch::EXISTS {
-                self.children.to_html_async_with_buf::<OUT_OF_ORDER>(
-                    buffer,
-                    position,
-                    E::ESCAPE_CHILDREN,
-                    mark_branches,
-                    vec![],
-                );
+                if escapes_content_as_text::<E>() {
+                    let mut content = String::new();
+                    self.children.to_html_with_buf(
+                        &mut content,
+                        position,
+                        false,
+                        mark_branches,
+                        vec![],
+                    );
+                    buffer.push_sync(&html_escape::encode_text(&content));
+                } else {
+                    self.children.to_html_async_with_buf::<OUT_OF_ORDER>(
+                        buffer,
+                        position,
+                        E::ESCAPE_CHILDREN,
+                        mark_branches,
+                        vec![],
+                    );
+                }
             }
 
             // closing tag
@@ -571,6 +595,16 @@ where
             children: self.children.into_owned(),
         }
     }
+}
+
+/// Whether the content of this element is text in which the browser decodes character
+/// references, but no tags or comments (`<textarea>`).
+///
+/// Its children are rendered without comment markers or placeholders (`ESCAPE_CHILDREN` is
+/// `false`), and the result is escaped as a whole: otherwise a string child containing
+/// `</textarea>` would end the element.
+fn escapes_content_as_text<E: ElementType>() -> bool {
+    !E::ESCAPE_CHILDREN && E::TAG == "textarea"
 }
 
 /// Renders an [`Attribute`] (which can be one or more HTML attributes) into an HTML buffer.
